@@ -1,5 +1,5 @@
 import QibModel.Qubitization
-import QibGen.GatesReal
+import QibProofs.Lemmas.GateBridge
 import QibProofs.Lemmas.GateAlgebra
 import QibProofs.Lemmas.QubitizationAct
 import QibProofs.Lemmas.QubitizationEvt
@@ -16,7 +16,7 @@ Model: `QibModel/Qubitization.lean` (executed by `drv_qubitization`, tied to the
 `Pcps.asCircuit` (gate lists of both constructions), `pcpsMatrixDiag`, `GateDesc.act`/`circuitAct` (what the emitted gates
 do to basis states), `evtMatrix`/`evtCircuit` (the loops of `EigenvalueTransformation`), `evtSpec` (the defining product).
 -/
-open Matrix NormedSpace Complex QibGen Qib.GateAlgebra Qib.Qubitization Qib.Embed
+open Matrix NormedSpace Complex QibGen QibRef Qib.GateAlgebra Qib.Qubitization Qib.Embed
 
 namespace Qib.C19
 
@@ -578,5 +578,13 @@ example : ∃ items, evtCircuit (⟨0, [0], [1], [0], .auxiliary⟩ : Pcps ℝ) 
 /-- a placement for `C19_gate_crz_matrix`: controls on wires 2, 0 and target on wire 1 of a 3-wire register -/
 example : ∃ iw : Fin 3 ↪ Fin 3, ctrlLabels iw = [2, 0] ∧ tgtLabel iw = 1 :=
   C19_gate_placement_exists 3 [2, 0] 1 (by decide) (by decide)
+
+/-! ### The same statements about the forms regenerated from the CURRENT source
+
+`QibSrc.K.mat` / `QibSrc.K.inv` are regenerated from `src/qib/operator/gates.py` on every run; `QibBridge` proves on every run that they are
+equal to the reference forms `QibRef.K.mat` / `QibRef.K.inv` used above (by a tactic that is independent of how the source spells the
+closed form), so every theorem above is a theorem about what the code says now. -/
+
+theorem C19_source_agrees : QibBridge.SrcAgrees := QibBridge.srcAgrees
 
 end Qib.C19
